@@ -157,7 +157,7 @@ def dispatch(cx: int, cy: int, r: int, incl: bool, as_id: bool, which: int) -> b
 BOUNDS = {"quick": {"radius": "<= 2 on unbounded grids, or unbounded radius on grids with extents <= 5", "id-form centres": "every concrete shape with extents <= 2 (real table), radius unbounded"},
           "thorough": {"radius": "<= 3 on unbounded grids (<= 4 for tuple form), or unbounded radius on grids with extents <= 2R+1",
                        "id-form centres": "every concrete shape with extents <= 3"}}
-OUTSIDE = ["larger radii on grids wider than 2R+1", "wrapping (excluded by the property)", "id form (ret_type=int): width and height concrete 0..3/5 per query, depth unbounded (the id is non-linear in width*height; that ids equal table ranks for ALL shapes is C09's id_formula)"]
+OUTSIDE = ["larger radii on grids wider than 2R+1", "wrapping (excluded by the property)", "ascending order at R = 4 (z3: unknown after 600 s; decided up to R = 3)", "id form (ret_type=int): width and height concrete 0..3/4 per query, depth unbounded (the id is non-linear in width*height; that ids equal table ranks for ALL shapes is C09's id_formula)"]
 STUBS = ["self.cells replaced by stand-ins: symbolic shapes use the arithmetic inverse of the table rank, concrete shapes the REAL position table",
          "PositionComponent centres carry a real-valued in-cell offset 0 <= f < 1 (int() of a non-negative value is exact truncation)"]
 ASSUMPTIONS = ["cell order = position in the world's own table (z-major, y, x), as established by C09"]
@@ -168,10 +168,13 @@ def obligations(tier):
            Env.discrete_grid_pos_to_id, Env.DiscreteWorld.get_neighbours)
     R = 2 if tier == "quick" else 3
     parts = [{"kind": k, "R": R, "ret": "tuple", "centre": "tuple"} for k in ("moore", "neumann")]
-    parts += [{"kind": k, "R": 2, "ret": "int", "centre": "tuple", "WH": 3 if tier == "quick" else 5} for k in ("moore", "neumann")]
+    if tier == "quick":
+        parts += [{"kind": k, "R": 2, "ret": "int", "centre": "tuple", "WH": 3} for k in ("moore", "neumann")]
+    else:   # one partition per width so that the (width, height) pairs spread over the cores
+        parts += [{"kind": k, "R": 2, "ret": "int", "centre": "tuple", "WH": 4, "W_only": cw} for k in ("moore", "neumann") for cw in range(5)]
     parts += [{"kind": k, "R": 1 if tier == "quick" else 2, "ret": "tuple", "centre": "pos"} for k in ("moore", "neumann")]
     if tier != "quick":
-        parts += [{"kind": "moore", "R": 4, "ret": "tuple", "centre": "tuple"}]
+        parts += [{"kind": "moore", "R": 4, "ret": "tuple", "centre": "tuple", "no_order": True}]
     NI = 2 if tier == "quick" else 3
     shapes = [(3, 3, 3), (2, 0, 3), (1, 4, 0)] if tier == "quick" else [(3, 3, 3), (2, 0, 3), (1, 4, 0), (0, 0, 0), (4, 1, 2), (3, 2, 0)]
     return [
